@@ -333,7 +333,7 @@ func c11ScaleWorld(f *c11Family, parents int, seed int64, rels []string) c11Worl
 	}
 
 	// foreign keys
-	for _, l := range links {
+	for li, l := range links {
 		ht, tt := f.table(l.Holder), f.table(l.Target)
 		kt := size[l.Target]
 		setLink := func(r c11Row, j int) {
@@ -358,6 +358,13 @@ func c11ScaleWorld(f *c11Family, parents int, seed int64, rels []string) c11Worl
 		shift := 0
 		if l.Holder == l.Target {
 			shift = 1
+		}
+		// several links between the same two tables (same-named key fields at different embedding levels, two relations to
+		// one target): each gets its own rotation of targets, so that the columns of one row hold DIFFERENT keys
+		for _, o := range links[:li] {
+			if o.Holder == l.Holder && o.Target == l.Target {
+				shift += 2
+			}
 		}
 		for idx, r := range w.Tables[l.Holder] {
 			i := idx + 1
@@ -394,7 +401,7 @@ func c11ScaleWorld(f *c11Family, parents int, seed int64, rels []string) c11Worl
 				}
 			case l.Unique:
 				if i <= kt && i%13 != 0 {
-					setLink(r, i)
+					setLink(r, 1+(i-1+shift)%kt)
 				} else {
 					setLink(r, 0)
 				}
@@ -410,6 +417,14 @@ func c11ScaleWorld(f *c11Family, parents int, seed int64, rels []string) c11Worl
 					setLink(r, 1+(i-1+shift)%kt)
 				}
 			}
+		}
+	}
+
+	// decoy columns: the neighbouring row's value of the same-named key column
+	for _, d := range f.Decoys {
+		rows := w.Tables[d.Table]
+		for i, r := range rows {
+			r[d.Col] = rows[(i+1)%len(rows)][d.Like]
 		}
 	}
 
@@ -496,6 +511,7 @@ func (f *c11Family) scaleOps(rng *rand.Rand, parents int) (ops []c11Op, tags []s
 		if rng.Intn(7) == 0 {
 			op.Ctx = []string{"tx", "prepare", "conn", "txprepare"}[rng.Intn(4)]
 		}
+		f.sprinkleEmb(rng, t, op.Nodes)
 		ops, tags = append(ops, op), append(tags, tag)
 	}
 	idf := c11Cond{Style: "idfunc"}
@@ -723,7 +739,7 @@ func c11ScaleBucket(p int) string {
 }
 
 func c11ScaleSuite(r *Result, rng *rand.Rand, tier string) {
-	fams := []string{"U", "S", "C", "R", "N", "E"}
+	fams := []string{"U", "S", "C", "R", "N", "E", "D"}
 	over := []int{501, 1200, 640}
 	under := []int{500, 3, 499}
 	type plan struct {
@@ -740,7 +756,11 @@ func c11ScaleSuite(r *Result, rng *rand.Rand, tier string) {
 		}
 		switch tier {
 		case "quick", "search":
-			plans = append(plans, plan{fn, o, 0}, plan{fn, under[(i+rot/3)%3], 24})
+			big := 0
+			if fn == "D" {
+				big = 64 // thirteen relations: a random half of the matrix per run
+			}
+			plans = append(plans, plan{fn, o, big}, plan{fn, under[(i+rot/3)%3], 24})
 		default:
 			for _, p := range []int{3, 17, 499, 500, 501, 640, 1200, 502 + rng.Intn(3000)} {
 				plans = append(plans, plan{fn, p, 0})
